@@ -107,9 +107,12 @@ def expand(heap, items):
         out += heap.pieces.get(it, [it])
     return out
 
+TOPI = ('top',)          # an integer the abstract heap does not determine (a counter widened after a few iterations)
+
 class ShapeInterp:
     def __init__(self, mod):
         self.mod = mod
+        self.abandoned = 0          # paths given up at the depth bound after branching on an unknown integer
     def field(self, fn, ref):
         i = fn.imap.get(ref) if isinstance(ref, str) else None
         if i is None or i.op != 'getelementptr':
@@ -134,8 +137,13 @@ class ShapeInterp:
         if IR.is_int(ref):
             return ('int', IR.ival(ref))
         raise AnalysisBroken('shape: unsupported operand %r' % (ref,))
-    def _run(self, fn, regs, heap, bid, prev, start, out, depth):
+    def _run(self, fn, regs, heap, bid, prev, start, out, depth, topbr=0):
         if depth > 200:
+            if topbr:
+                # a loop steered by an integer the heap does not determine (a bounded search, a counter): this path keeps unrolling list
+                # segments; it is given up - the caller reports the analysis as undecided unless another path already shows a violation
+                self.abandoned += 1
+                return
             raise AnalysisBroken('shape: %s does not terminate on the abstract heap (loop?)' % fn.name)
         blk = fn.bmap[bid]
         regs = dict(regs)
@@ -149,6 +157,16 @@ class ShapeInterp:
             regs.update(ph)
         for i in blk.insts[start:]:
             op = i.op
+            if op in ('add', 'sub', 'mul', 'and', 'or', 'shl', 'lshr', 'ashr', 'sext') or (op == 'xor' and i.ty != 'i1'):
+                a = self._val(regs, i.ops[0])
+                b = self._val(regs, i.ops[1]) if len(i.ops) > 1 else None
+                if isinstance(a, tuple) and a[0] == 'int' and (b is None or (isinstance(b, tuple) and b[0] == 'int')) and depth < 24:
+                    k = {'add': lambda: a[1] + b[1], 'sub': lambda: a[1] - b[1], 'mul': lambda: a[1] * b[1], 'and': lambda: a[1] & b[1], 'or': lambda: a[1] | b[1],
+                         'shl': lambda: a[1] << b[1], 'lshr': lambda: a[1] >> b[1], 'ashr': lambda: a[1] >> b[1], 'sext': lambda: a[1], 'xor': lambda: a[1] ^ b[1]}[op]()
+                    regs[i.id] = ('int', k)
+                else:
+                    regs[i.id] = TOPI          # beyond a few iterations a counter is "some integer"
+                continue
             if op in ('dbg', 'phi', 'getelementptr', 'bitcast'):
                 if op == 'bitcast':
                     regs[i.id] = self._val(regs, i.ops[0])
@@ -170,7 +188,7 @@ class ShapeInterp:
                     for h2, f in heap.materialise(t, front=(fld == NEXT)):
                         r2 = dict(regs)
                         r2[i.id] = f
-                        self._run(fn, r2, h2, bid, prev, i.idx + 1, out, depth + 1)
+                        self._run(fn, r2, h2, bid, prev, i.idx + 1, out, depth + 1, topbr)
                     return
                 regs[i.id] = t
             elif op == 'store':
@@ -186,6 +204,11 @@ class ShapeInterp:
                     continue
                 (heap.nxt if fld == NEXT else heap.prv)[n] = v
                 heap.written.add((n, fld))
+            elif op == 'icmp' and (self._val(regs, i.ops[0]) == TOPI or self._val(regs, i.ops[1]) == TOPI):
+                regs[i.id] = TOPI
+            elif op == 'icmp' and i.x['pred'] not in ('eq', 'ne') and all(isinstance(self._val(regs, o), tuple) and self._val(regs, o)[0] == 'int' for o in i.ops[:2]):
+                a, b = self._val(regs, i.ops[0])[1], self._val(regs, i.ops[1])[1]
+                regs[i.id] = ('int', int({'slt': a < b, 'sle': a <= b, 'sgt': a > b, 'sge': a >= b, 'ult': a < b, 'ule': a <= b, 'ugt': a > b, 'uge': a >= b}[i.x['pred']]))
             elif op == 'icmp':
                 a, b = self._val(regs, i.ops[0]), self._val(regs, i.ops[1])
                 eq = a == b
@@ -194,17 +217,23 @@ class ShapeInterp:
                     raise AnalysisBroken('shape: ordered pointer comparison at %s' % i.where())
             elif op in ('zext', 'trunc', 'xor'):
                 a = self._val(regs, i.ops[0])
-                if op == 'xor':
+                if a == TOPI:
+                    regs[i.id] = TOPI
+                elif op == 'xor':
                     regs[i.id] = ('int', a[1] ^ 1)
                 else:
                     regs[i.id] = a
             elif op == 'br':
                 tg = i.x['targets']
                 if len(tg) == 1:
-                    self._run(fn, regs, heap, tg[0], bid, 0, out, depth + 1)
+                    self._run(fn, regs, heap, tg[0], bid, 0, out, depth + 1, topbr)
                 else:
                     c = self._val(regs, i.ops[0])
-                    self._run(fn, regs, heap, tg[0] if c[1] & 1 else tg[1], bid, 0, out, depth + 1)
+                    if c == TOPI:
+                        for t in tg:
+                            self._run(fn, regs, heap, t, bid, 0, out, depth + 1, 1)
+                    else:
+                        self._run(fn, regs, heap, tg[0] if c[1] & 1 else tg[1], bid, 0, out, depth + 1, topbr)
                 return
             elif op == 'call':
                 callee = i.callee or ''
@@ -217,7 +246,7 @@ class ShapeInterp:
                         continue
                     r2 = dict(regs)
                     r2[i.id] = rv
-                    self._run(fn, r2, h2, bid, prev, i.idx + 1, out, depth + 1)
+                    self._run(fn, r2, h2, bid, prev, i.idx + 1, out, depth + 1, topbr)
                 return
             elif op == 'ret':
                 out.append((heap, self._val(regs, i.ops[0]) if i.ops else None))
